@@ -18,6 +18,18 @@ def idx (s : List Char) (i : Nat) : Except PyErr Char :=
   | some c => pure c
   | none => throw (.raised "IndexError" "string index out of range")
 
+/-- truthiness of an `Optional[str]` (a request header): `None` and `""` are false -/
+def otruthy (x : Option (List Char)) : Bool :=
+  match x with
+  | some s => Str.truthy s
+  | none => false
+
+/-- a value passed where a `str` method is called on it: `None` raises AttributeError -/
+def strArg (x : Option (List Char)) : Except PyErr (List Char) :=
+  match x with
+  | some s => pure s
+  | none => throw (.raised "AttributeError" "'NoneType' object has no attribute")
+
 /-- `A and B` with Python's evaluation order -/
 def andM (a b : Except PyErr Bool) : Except PyErr Bool :=
   a >>= fun x => if x then b else pure false
